@@ -82,8 +82,15 @@ def gen(rng, tier):
                                 rng.choice([0.01, 0.02, 0.05, 0.08]), 3)
         waits.append({'api': api, 'targets': targets, 'state': state,
                       'timeout': timeout, 'at': at})
+    # application callbacks which take their time (legal use): the manager's
+    # notification thread sits in one while wait calls poll, time out, return
+    slow = None
+    if rng.random() < 0.3:
+        slow = {'kind': rng.choice(['task', 'pilot', 'both']),
+                'dt': rng.choice([0.5, 2.0, 5.0]),
+                'prob': rng.choice([0.3, 1.0])}
     return {'nt': nt, 'np': np_, 'ents': ents, 'waits': waits,
-            'delay_max': rng.choice([0.0, 0.0, 0.05])}
+            'delay_max': rng.choice([0.0, 0.0, 0.05]), 'slow_cb': slow}
 
 
 def run(seed, scenario, trace=None, tier='quick'):
@@ -115,6 +122,17 @@ def run(seed, scenario, trace=None, tier='quick'):
             tasks  = tmgr.submit_tasks([rp.TaskDescription(
                 {'executable': '/bin/true'}) for _ in range(sc['nt'])])
             st['tasks'], st['pilots'] = tasks, pilots
+            slow = sc.get('slow_cb')
+            if slow:
+                def slow_cb(*a):
+                    # (decided per invocation by the schedule stream)
+                    if sim.ch.coin(slow['prob']):
+                        sim.fault('slow_callback')
+                        sim.sleep(slow['dt'])
+                if slow['kind'] in ('task', 'both'):
+                    tmgr.register_callback(slow_cb)
+                if slow['kind'] in ('pilot', 'both'):
+                    pmgr.register_callback(slow_cb)
             pub = W.state_publisher(side)
             W.wait_until(sim, lambda: net.idle(queues=False), 10.0)
             sample()
@@ -316,6 +334,8 @@ def shrink(sc):
             out.append(c)
     if sc['delay_max']:
         c = dict(sc); c['delay_max'] = 0.0; out.append(c)
+    if sc.get('slow_cb'):
+        c = dict(sc); c['slow_cb'] = None; out.append(c)
     return out
 
 
